@@ -227,6 +227,7 @@ def project_join(log):
         jfutex = None
         j_is_ult = True
         ext_resumed = False
+        link_seen_set = False
         t_term = False
         jtid = None
         in_join = False
@@ -243,7 +244,7 @@ def project_join(log):
                         res.append((tname, lines))
                     lines = ["new"]
                     junit = jtid = t_tid = jfutex = None
-                    in_join = t_exiting = done = t_term = False
+                    in_join = t_exiting = done = t_term = link_seen_set = False
                 alive = True          # (re)creation of the descriptor named tname
                 continue
             if not alive:
@@ -258,6 +259,7 @@ def project_join(log):
                     jk = txt[4] if len(txt) >= 5 else ("ext" if junit == "-" else "ult")
                     j_is_ult = (jk == "ult")
                     ext_resumed = False
+                    link_seen_set = False
                     lines.append("jCall %d" % (1 if jk == "ult" else 0))
                 elif txt[0] == "apiRet" and txt[1] == "join" and len(txt) >= 4 and txt[3] == tname:
                     in_join = False
@@ -309,11 +311,18 @@ def project_join(log):
                             lines.append("tExit")
                         t_tid = ev["tid"]
                         lines.append("tLoadLink %d" % (1 if ev["cur"] else 0))
+                        if ev["cur"]:
+                            link_seen_set = True
                 elif name == tname and off == o_state:
                     if op == "store" and ev["a"] == 3:
                         lines.append("tStoreTerminated")
                         t_term = True
                     elif op == "load" and in_join and ev["unit"] == junit:
+                        if not j_is_ult and link_seen_set and not ext_resumed and not t_term:
+                            # the target's store into the joiner's private futex word (an unnamed stack address, not
+                            # logged) has let the joiner leave its futex loop before the wake call is logged
+                            lines.append("tResume")
+                            ext_resumed = True
                         lines.append("jLoadState %d" % (1 if ev["cur"] == 3 else 0))
                 elif in_join and junit and name == junit and off == o_state and op == "store" and ev["a"] == 2:
                     lines.append("jStoreBlocked")
